@@ -1034,6 +1034,19 @@ class Evaluator:
             st.setattrs.append((tgt, name if okn else unparse(e.args[1]), self.eval(e.args[2], st)))
             return None
         if dotted == "isinstance":
+            # isinstance(x, C) for x declared Optional[C] is "x is present"; for x declared C it holds
+            if len(e.args) == 2:
+                try:
+                    xv = self.eval(e.args[0], st)
+                    cv = self.repo.resolve(e.args[1], self.func.mod) if isinstance(e.args[1], (ast.Name, ast.Attribute)) else None
+                except Exception:
+                    xv, cv = None, None
+                if isinstance(xv, TRef) and isinstance(cv, Cls):
+                    typ = xv.typ
+                    if typ[0] == "cls" and typ[1].is_subclass_of(cv):
+                        return True
+                    if typ[0] == "opt" and typ[1][0] == "cls" and typ[1][1].is_subclass_of(cv):
+                        return self.truth(xv, e.args[0], st)
             return BoolVal(unparse(e))
         # ---- in-place growth of a local byte buffer: b.append(x) / b.extend(y) / b.reverse()
         if isinstance(fn, ast.Attribute) and isinstance(fn.value, ast.Name) and isinstance(st.env.get(fn.value.id), SBytes) and fn.attr in ("append", "extend", "reverse"):
